@@ -4812,7 +4812,8 @@ fn serve_h2c_peer(mut c: RawConn, conn_no: usize, mode: BackMode, shared: std::s
 
 fn case_peer_reset(ctx: &mut Ctx, tls: &mut TlsCtx, name: &str, fails: &mut Vec<Fail>, dist: &mut BTreeMap<String, u64>) -> String {
     use std::io::Write;
-    let back_h2 = name != "client-cancels-download";
+    let back_h2 = name != "client-cancels-download" && name != "incremental-priorities";
+    let prio = name == "incremental-priorities";
     let (path, _cid, be) = route_tls(ctx, tls, "z", back_h2);
     let case = format!("peer-reset[{name}] path={path}");
     *dist.entry(format!("peer-reset:{name}")).or_insert(0) += 1;
@@ -4848,7 +4849,7 @@ fn case_peer_reset(ctx: &mut Ctx, tls: &mut TlsCtx, name: &str, fails: &mut Vec<
                             continue;
                         };
                         let idx: usize = m.start_line.split(' ').nth(1).and_then(|p| p.rsplit("/r").next()).and_then(|t| t.parse().ok()).unwrap_or(0);
-                        let body = pr_body(idx, if idx == 3 { dl / 3 } else { dl });
+                        let body = pr_body(idx, if idx == 9 { dl / 3 } else { dl });
                         let mut out = format!("HTTP/1.1 200 OK\r\nContent-Length: {}\r\n\r\n", body.len()).into_bytes();
                         out.extend_from_slice(&body);
                         // the cancelled download makes sozu drop this connection: not an error here
@@ -4878,7 +4879,10 @@ fn case_peer_reset(ctx: &mut Ctx, tls: &mut TlsCtx, name: &str, fails: &mut Vec<
     let mut cl = LedgerClient::new(st);
     let mut hello = b"PRI * HTTP/2.0\r\n\r\nSM\r\n\r\n".to_vec();
     hello.extend_from_slice(&settings_frame(&[]));
-    cl.track_recv(65535, 65535);
+    // default stream windows; a 1 MiB connection window, so that the connection-level WINDOW_UPDATEs stay
+    // far below the rate the flood defence (C15) cuts off
+    hello.extend_from_slice(&frame(8, 0, 0, &((1u32 << 20) - 65535).to_be_bytes()));
+    cl.track_recv(65535, 1 << 20);
     if cl.st.write_all(&hello).and_then(|_| cl.st.flush()).is_err() {
         finish_threads(&stop, bt);
         fails.push(Fail { class: "h2front-transfer-failed".into(), detail: "write hello".into(), case: case.clone() });
@@ -4899,6 +4903,11 @@ fn case_peer_reset(ctx: &mut Ctx, tls: &mut TlsCtx, name: &str, fails: &mut Vec<
         if len > 0 {
             hs.push((b"content-length", cls.as_bytes()));
         }
+        // RFC 9218: three incremental streams of one urgency, one of another, an urgent plain one, one without
+        let pv: &[u8] = [&b"u=3, i"[..], b"u=3, i", b"u=1", b"u=3, i", b"u=5, i", b""][idx % 6];
+        if prio && !pv.is_empty() {
+            hs.push((b"priority", pv));
+        }
         let blk = cl.enc.encode(hs);
         cl.out.extend_from_slice(&frame(1, 4 | (len == 0) as u8, sid, &blk));
         cl.stream_avail.insert(sid, cl.peer_init);
@@ -4907,7 +4916,8 @@ fn case_peer_reset(ctx: &mut Ctx, tls: &mut TlsCtx, name: &str, fails: &mut Vec<
         }
         sid
     };
-    let first: Vec<u32> = (0..3).map(|i| open(&mut cl, &mut uploads, i, up)).collect();
+    let first: Vec<u32> = (0..if prio { 6 } else { 3 }).map(|i| open(&mut cl, &mut uploads, i, up)).collect();
+    let mut prio_update_sent = false;
     cl.flush();
     let mut cancelled_at: Option<usize> = None;
     let mut late: Option<u32> = None;
@@ -4928,6 +4938,13 @@ fn case_peer_reset(ctx: &mut Ctx, tls: &mut TlsCtx, name: &str, fails: &mut Vec<
             cl.out.extend_from_slice(&frame(3, 0, 3, &8u32.to_be_bytes()));
             cl.cancelled.insert(3);
         }
+        if prio && !prio_update_sent && cl.bodies.get(&5).map(|b| b.len()).unwrap_or(0) >= 50_000 {
+            // PRIORITY_UPDATE (RFC 9218 7.1): the plain urgent stream becomes incremental in the crowded bucket
+            let mut pl = 5u32.to_be_bytes().to_vec();
+            pl.extend_from_slice(b"u=3, i");
+            cl.out.extend_from_slice(&frame(0x10, 0, 0, &pl));
+            prio_update_sent = true;
+        }
         let settled = |cl: &LedgerClient, s: &u32| cl.ended.contains(s) || cl.rst.contains_key(s) || cl.cancelled.contains(s);
         if late.is_none() && first.iter().all(|s| settled(&cl, s)) {
             if cl.goaway.is_some() {
@@ -4936,7 +4953,7 @@ fn case_peer_reset(ctx: &mut Ctx, tls: &mut TlsCtx, name: &str, fails: &mut Vec<
                 break;
             }
             // a later stream on the same connection must still be served
-            late = Some(open(&mut cl, &mut uploads, 3, if back_h2 { 60_000 } else { 0 }));
+            late = Some(open(&mut cl, &mut uploads, 9, if back_h2 { 60_000 } else { 0 }));
         }
         if let Some(l) = late {
             if settled(&cl, &l) && uploads.values().all(|u| u.2 || true) {
@@ -4979,7 +4996,7 @@ fn case_peer_reset(ctx: &mut Ctx, tls: &mut TlsCtx, name: &str, fails: &mut Vec<
         "backend-resets-upload" => g.reset_idx,
         _ => None,
     };
-    for idx in 0..4usize {
+    for idx in 0..10usize {
         let sid = 1 + 2 * idx as u32;
         if Some(sid) != late && !first.contains(&sid) {
             continue;
@@ -5007,19 +5024,22 @@ fn case_peer_reset(ctx: &mut Ctx, tls: &mut TlsCtx, name: &str, fails: &mut Vec<
             *dist.entry("peer-reset:goaway-stream-retried".into()).or_insert(0) += 1;
         }
         // bodies, both directions
-        let want_resp = if back_h2 { pr_body(idx + 50, 2000 + idx) } else { pr_body(idx, if idx == 3 { dl / 3 } else { dl }) };
+        let want_resp = if back_h2 { pr_body(idx + 50, 2000 + idx) } else { pr_body(idx, if idx == 9 { dl / 3 } else { dl }) };
         let got = cl.bodies.get(&sid).cloned().unwrap_or_default();
         if got != want_resp {
             let at = got.iter().zip(want_resp.iter()).position(|(a, b)| a != b).unwrap_or(got.len().min(want_resp.len()));
             push("h2-sibling-stream-body-differs-after-peer-reset", format!("response body of request {idx}: {} bytes, expected {}, first difference at {at}", got.len(), want_resp.len()));
         }
         if back_h2 {
-            let want_req = pr_body(idx, if idx == 3 { 60_000 } else { up });
+            let want_req = pr_body(idx, if idx == 9 { 60_000 } else { up });
             let at_backend: Vec<&(usize, usize, Vec<u8>)> = g.complete.iter().filter(|(_, i, _)| *i == idx).collect();
             if at_backend.len() != 1 || at_backend[0].2 != want_req {
                 push("h2-sibling-stream-body-differs-after-peer-reset", format!("request {idx} answered 200: the backend holds {} complete copies ({:?} bytes), expected one of {} bytes", at_backend.len(), at_backend.iter().map(|x| x.2.len()).collect::<Vec<_>>(), want_req.len()));
             }
         }
+    }
+    if prio {
+        dist.insert("peer-reset:priority-update-sent".into(), prio_update_sent as u64);
     }
     if name == "backend-resets-upload" && g.reset_idx.is_none() {
         drop(push);
@@ -5176,7 +5196,7 @@ fn main() {
                 }
                 if args.prop != "C03" && (family.is_empty() || family == "peer-reset") {
                     let t_pr = Instant::now();
-                    for name in ["client-cancels-download", "backend-resets-upload", "backend-goaway-retry"] {
+                    for name in ["client-cancels-download", "backend-resets-upload", "backend-goaway-retry", "incremental-priorities"] {
                         let case = guarded(&mut guard, &format!("peer-reset[{name}]"), &mut fails, &mut dist, |fails, dist| case_peer_reset(&mut ctx, &mut t, name, fails, dist));
                         evaluations += 1;
                         if let (Some(case), true) = (case, name == "backend-resets-upload") {
@@ -5268,6 +5288,24 @@ fn main() {
             if !ctx.w.alive().is_alive() {
                 fails.push(Fail { class: "worker-died".into(), detail: format!("{:?}", ctx.w.exit_state()), case: "after overlap".into() });
                 break;
+            }
+        }
+        if !thorough && family != "overlap-front" && args.prop != "C14" {
+            // quick tier: one slow-reading TLS HTTP/2 client, so that the TLS write path of the frontend
+            // (rustls buffer full, write_tls would-block, parked frame resumed) is exercised on every run
+            match new_tls_listener(&mut ctx) {
+                Err(e) => {
+                    guard.inconclusive += 1;
+                    guard.notes.push(format!("overlap-h2front https listener set-up: {e}"));
+                    evaluations += 1;
+                }
+                Ok(mut t) => {
+                    let case = guarded(&mut guard, "overlap-h2front", &mut fails, &mut dist, |fails, dist| case_overlap_h2front(&mut ctx, &mut t, 1 << 20, 12 << 20, 2048, fails, dist));
+                    evaluations += 1;
+                    if let Some(case) = case {
+                        samples.push(json!({"case": case}));
+                    }
+                }
             }
         }
         if thorough || family == "overlap-front" {
